@@ -379,6 +379,8 @@ class Exec:
     def lookup(self, name, st):
         if name in st.env:
             return st.env[name]
+        if name == "fs" and self.spec_depth and st.ghost.get("fs") is not None:
+            return st.ghost["fs"]          # the file-system ghost state (spec expressions only)
         fr = self.fr
         c = fr.closure
         while c is not None:
